@@ -529,6 +529,8 @@ RULES = [("writeset", rule_writeset), ("stack", rule_stack), ("multiset", rule_m
 # which for a position loaded from FEN is the synthetic record (C07.history)
 RULES += engine.premise_rules("c04", ["piece-pair", "turn-pair", "ep-pair", "castle-pair", "castle-revert"])
 RULES += engine.premise_rules("c07", ["fields", "history", "build"])
+# add_piece / remove_piece set and clear Square::get_mask() in the board of Kind::get_color()
+RULES += engine.premise_rules("c01", ["leaf-accessors"])
 
 
 def run(tier):
